@@ -159,3 +159,74 @@ func (v *concNodeRaceVariant) Gen(r *rand.Rand, idx int, emit func(string)) {
 }
 
 func init() { components["conc-noderace"] = func() Component { return &concNodeRaceVariant{} } }
+
+// billRace: several light clients that have been away for different lengths of time send their keep-alive at the same
+// moment through one balance manager.  Each is charged its own elapsed time per peer and the host is credited the
+// sum, whatever the interleaving (the manager keeps no per-request state).
+func (c *concComp) billRace(rounds int, seed int64) ([]string, string, bool) {
+	st := openStore(c.driver)
+	defer st.Close()
+	T := time.Now().Add(time.Hour)
+	mgr := balance.PayPerInterval(st, time.Minute, big.NewInt(1000))
+	mgr.VerifSetNow(func() time.Time { return T })
+	r := rand.New(rand.NewSource(seed))
+	nonzero, wrong, failed := 0, 0, 0
+	first := ""
+	for k := 0; k < rounds; k++ {
+		host := store.Node{ID: store.NodeID(fmt.Sprintf("bh%d", k)), IsHost: true, Kind: "geth", LastSeen: time.Now()}
+		if err := st.SetNode(host); err != nil {
+			failed++
+			continue
+		}
+		n := 2 + r.Intn(3)
+		cl := make([]store.Node, n)
+		mins := make([]int64, n)
+		for i := range cl {
+			mins[i] = int64(1 + i*3 + r.Intn(3))
+			cl[i] = store.Node{ID: store.NodeID(fmt.Sprintf("bc%d-%d", k, i)), Kind: "geth", LastSeen: T.Add(-time.Duration(mins[i]) * time.Minute)}
+			st.SetNode(cl[i])
+		}
+		var wg sync.WaitGroup
+		errs := make([]error, n)
+		start := make(chan struct{})
+		for i := range cl {
+			i := i
+			wg.Add(1)
+			go func() {
+				defer wg.Done()
+				<-start
+				_, errs[i] = mgr.OnUpdate(cl[i], []store.Node{host})
+			}()
+		}
+		close(start)
+		wg.Wait()
+		sum := new(big.Int)
+		hb, _ := st.GetNodeBalance(host.ID)
+		sum.Add(sum, &hb.Credit)
+		bad := false
+		for i := range cl {
+			if errs[i] != nil {
+				failed++
+			}
+			b, _ := st.GetNodeBalance(cl[i].ID)
+			sum.Add(sum, &b.Credit)
+			if b.Credit.Cmp(big.NewInt(-1000*mins[i])) != 0 {
+				bad = true
+				if first == "" {
+					first = fmt.Sprintf("round-%d-client-away-%d-min-charged-%s", k, mins[i], b.Credit.String())
+				}
+			}
+		}
+		if bad {
+			wrong++
+		}
+		if sum.Sign() != 0 {
+			nonzero++
+		}
+	}
+	out := fmt.Sprintf("ok rounds-nonzero-sum=%d rounds-wrong-charge=%d failed=%d", nonzero, wrong, failed)
+	if first != "" {
+		out += " first=" + first
+	}
+	return nil, out, true
+}
